@@ -261,7 +261,24 @@ def _combine_case(draw, tier):
                 fixed=fixed, a_obs=a_obs, b_obs=b_obs)
 
 
+@st.composite
+def _skipcount_case(draw, tier):
+    """result sets of which only SOME carry the runner's 'num_skipped_reps'
+    SUM result (merge_all_results documents that such sets can be merged);
+    the grouping law must hold for that result as well"""
+    n = draw(st.integers(2, 6))
+    sets = []
+    for _ in range(n):
+        sets.append(dict(x=draw(st.integers(-5, 9)),
+                         skipped=draw(st.one_of(st.none(), st.none(),
+                                                st.integers(0, 4)))))
+    order = draw(st.lists(st.integers(0, 10), min_size=n - 1,
+                          max_size=n - 1))
+    return dict(part="skipcount", sets=sets, order=order)
+
+
 PARTS = [
+    Part("skipcount", _skipcount_case, quick=800, thorough=20000),
     Part("result", _result_case, quick=6000, thorough=150000,
          quick_shards=8),
     Part("sets", _sets_case, quick=2000, thorough=40000),
@@ -883,8 +900,54 @@ def _check_combine_part(case, ctx):
         raise exc
 
 
+def _check_skipcount_part(case, ctx):
+    from pyphysim.simulations.results import Result, SimulationResults
+    tags = dict(part="skipcount")
+    objs, ranges = [], []
+    for i, d in enumerate(case["sets"]):
+        r = SimulationResults()
+        r.add_new_result("x", Result.SUMTYPE, d["x"])
+        if d["skipped"] is not None:
+            r.add_new_result("num_skipped_reps", Result.SUMTYPE, d["skipped"])
+        objs.append(r)
+        ranges.append((i, i + 1))
+    n_with = sum(1 for d in case["sets"] if d["skipped"] is not None)
+    ctx.label("skipcount:with=%s" % ("none" if n_with == 0 else "all"
+                                     if n_with == len(objs) else "some"))
+    ctx.nontrivial(0 < n_with < len(objs) and len(objs) >= 3)
+    step = 0
+    while len(objs) > 1:
+        i = case["order"][step] % (len(objs) - 1)
+        step += 1
+        objs[i].merge_all_results(objs[i + 1])
+        ranges[i] = (ranges[i][0], ranges[i + 1][1])
+        del objs[i + 1], ranges[i + 1]
+        a, b = ranges[i]
+        part_sets = case["sets"][a:b]
+        want_x = sum(d["x"] for d in part_sets)
+        got_x = objs[i]["x"][-1].get_result()
+        if got_x != want_x:
+            raise Violation("skipcount_x", "merged 'x' of sets %d..%d is %r, "
+                            "sum is %r" % (a, b - 1, got_x, want_x), tags)
+        have = [d["skipped"] for d in part_sets if d["skipped"] is not None]
+        names = objs[i].get_result_names()
+        if have:
+            if "num_skipped_reps" not in names:
+                raise Violation("skipcount_missing", "merged sets %d..%d lost "
+                                "the 'num_skipped_reps' result" % (a, b - 1),
+                                tags)
+            got = objs[i]["num_skipped_reps"][-1].get_result()
+            if got != sum(have):
+                raise Violation("skipcount_value", "merged 'num_skipped_reps' "
+                                "of sets %d..%d (counts %r) is %r, expected %r"
+                                % (a, b - 1, [d["skipped"] for d in part_sets],
+                                   got, sum(have)), tags)
+
+
 def check(case, ctx):
     part = case["part"]
+    if part == "skipcount":
+        return _check_skipcount_part(case, ctx)
     if part == "result":
         return _check_result_part(case, ctx)
     if part == "sets":
